@@ -265,6 +265,75 @@ func genManaged(r *vm.Rand, sections int, knownPlayer pk.UUID) managedPacket {
 	return mk("PlayerChat", packetid.ClientboundPlayerChat, fs...)
 }
 
+// genConfig returns one configuration-state packet the bot's joinConfiguration consumes.
+func genConfig(r *vm.Rand) managedPacket {
+	mk := func(kind string, id packetid.ClientboundPacketID, fs ...pk.FieldEncoder) managedPacket {
+		return managedPacket{"config." + kind, pk.Marshal(id, fs...)}
+	}
+	text := chat.TranslateMsg("chat.type.text", chat.Text("a"), chat.Text(str(r)))
+	switch r.Intn(14) {
+	case 0:
+		return mk("CookieRequest", packetid.ClientboundConfigCookieRequest, pk.Identifier("verif:"+str(r)))
+	case 1:
+		return mk("CustomPayload", packetid.ClientboundConfigCustomPayload, pk.Identifier("minecraft:brand"), pk.PluginMessageData(r.Bytes(r.Intn(30))))
+	case 2:
+		return mk("KeepAlive", packetid.ClientboundConfigKeepAlive, pk.Long(r.Int64B()))
+	case 3:
+		return mk("Ping", packetid.ClientboundConfigPing, pk.Int(r.Uint32()))
+	case 4:
+		return mk("ResetChat", packetid.ClientboundConfigResetChat)
+	case 5:
+		has := r.Bool()
+		if has {
+			return mk("ResourcePackPop", packetid.ClientboundConfigResourcePackPop, pk.Boolean(true), pk.UUID{byte(r.Intn(3))})
+		}
+		return mk("ResourcePackPop", packetid.ClientboundConfigResourcePackPop, pk.Boolean(false))
+	case 6:
+		fs := []pk.FieldEncoder{pk.UUID{byte(r.Intn(3))}, pk.String("http://verif/" + str(r)), pk.String(str(r)), pk.Boolean(r.Bool()), pk.Boolean(r.Bool())}
+		if fs[4].(pk.Boolean) {
+			fs = append(fs, text)
+		}
+		return mk("ResourcePackPush", packetid.ClientboundConfigResourcePackPush, fs...)
+	case 7:
+		return mk("StoreCookie", packetid.ClientboundConfigStoreCookie, pk.Identifier("verif:k"), pk.ByteArray(r.Bytes(r.Intn(40))))
+	case 8:
+		return mk("Transfer", packetid.ClientboundConfigTransfer, pk.String("host"), pk.VarInt(r.Intn(70000)-100))
+	case 9:
+		n := r.Intn(4)
+		fs := []pk.FieldEncoder{pk.VarInt(n)}
+		for k := 0; k < n; k++ {
+			fs = append(fs, pk.Identifier("minecraft:f"+str(r)))
+		}
+		return mk("UpdateEnabledFeatures", packetid.ClientboundConfigUpdateEnabledFeatures, fs...)
+	case 10:
+		reg := []string{"minecraft:dimension_type", "minecraft:chat_type", "minecraft:item", "minecraft:worldgen/biome"}[r.Intn(4)]
+		fs := []pk.FieldEncoder{pk.VarInt(1), pk.Identifier(reg), pk.VarInt(2)}
+		for t := 0; t < 2; t++ {
+			n := r.Intn(4)
+			fs = append(fs, pk.Identifier(fmt.Sprintf("verif:tag%d", t)), pk.VarInt(n))
+			for k := 0; k < n; k++ {
+				fs = append(fs, pk.VarInt([]int32{0, 1, 2, -1, 1000}[r.Intn(5)]))
+			}
+		}
+		return mk("UpdateTags", packetid.ClientboundConfigUpdateTags, fs...)
+	case 11:
+		n := r.Intn(4)
+		fs := []pk.FieldEncoder{pk.VarInt(n)}
+		for k := 0; k < n; k++ {
+			fs = append(fs, pk.String("minecraft"), pk.String("core"+str(r)), pk.String("1.21"))
+		}
+		return mk("SelectKnownPacks", packetid.ClientboundConfigSelectKnownPacks, fs...)
+	case 12:
+		n := r.Intn(4)
+		fs := []pk.FieldEncoder{pk.VarInt(n)}
+		for k := 0; k < n; k++ {
+			fs = append(fs, pk.String("title"+str(r)), pk.String(str(r)))
+		}
+		return mk("CustomReportDetails", packetid.ClientboundConfigCustomReportDetails, fs...)
+	}
+	return mk("ServerLinks", packetid.ClientboundConfigServerLinks, pk.VarInt(1), pk.Boolean(true), pk.VarInt(0), pk.String("http://verif"))
+}
+
 // mutateBody applies one structural mutation to a packet body (declared lengths stay below the allocation guard).
 func mutateBody(r *vm.Rand, b []byte) ([]byte, string) {
 	b = append([]byte{}, b...)
@@ -338,6 +407,28 @@ func managedBot(c *vm.Ctx, r *vm.Rand) {
 		}
 		script = append(script, mp)
 	}
+	// every fourth session: compression negotiated at login and/or configuration-state packets before the registries
+	threshold, compress := 0, false
+	var cfgScript []managedPacket
+	if r.Intn(4) == 0 {
+		compress = r.Bool()
+		threshold = []int{-1, 0, 1, 64, 256}[r.Intn(5)]
+		for k := r.Intn(4); k > 0; k-- {
+			mp := genConfig(r)
+			if r.Intn(3) == 0 {
+				var how string
+				mp.p.Data, how = mutateBody(r, mp.p.Data)
+				mp.kind += "/" + how
+			}
+			cfgScript = append(cfgScript, mp)
+		}
+	}
+	if compress {
+		notes = append(notes, fmt.Sprintf("login: set compression threshold %d", threshold))
+	}
+	for _, s := range cfgScript {
+		notes = append(notes, fmt.Sprintf("%s id=%d data=%s", s.kind, s.p.ID, vm.Hex(s.p.Data[:min(len(s.p.Data), 600)])))
+	}
 	for _, s := range script {
 		notes = append(notes, fmt.Sprintf("%s id=%d data=%s", s.kind, s.p.ID, vm.Hex(s.p.Data[:min(len(s.p.Data), 600)])))
 	}
@@ -352,11 +443,20 @@ func managedBot(c *vm.Ctx, r *vm.Rand) {
 		if conn.ReadPacket(&p) != nil || conn.ReadPacket(&p) != nil { // handshake, login start
 			return
 		}
+		if compress {
+			conn.WritePacket(pk.Marshal(packetid.ClientboundLoginLoginCompression, pk.VarInt(threshold)))
+			conn.SetThreshold(threshold)
+		}
 		conn.WritePacket(pk.Marshal(packetid.ClientboundLoginGameProfile, pk.UUID{1}, pk.String("bot"), pk.VarInt(0), pk.Boolean(true)))
 		if conn.ReadPacket(&p) != nil { // login acknowledged
 			return
 		}
 		go io.Copy(io.Discard, raw) // net.Pipe has no buffer: keep reading whatever the bot answers
+		for _, cp := range cfgScript {
+			if conn.WritePacket(cp.p) != nil {
+				return
+			}
+		}
 		regs := []pk.Packet{
 			registryPacket("minecraft:dimension_type", []string{"minecraft:overworld", "minecraft:other"}, []*refnbt.Value{dimension(height, -64), nil}),
 			registryPacket("minecraft:chat_type", []string{"minecraft:chat", "minecraft:say_command", "minecraft:empty", "minecraft:team"},
@@ -408,9 +508,14 @@ func managedBot(c *vm.Ctx, r *vm.Rand) {
 		return
 	}
 	c.Eval(vm.HashStr("managed-bot", fmt.Sprint(height, params, notes)), true)
+	if compress {
+		c.Cover(fmt.Sprintf("managed.compression.threshold=%d", threshold))
+	}
+	for _, s := range cfgScript {
+		c.Cover("managed.sent." + s.kind)
+	}
 	if joinErr != nil {
 		c.Cover("managed.join-refused")
-		c.Note("managed.join-error", joinErr.Error())
 		return
 	}
 	c.Cover("managed.joined")
